@@ -541,7 +541,7 @@ func (e *Exec) compareAll(target string, targetProps []string, what string) {
 			case typeOnly:
 				e.fail([]string{"C11"}, "C11/type-or-zone", fmt.Sprintf("after %s: collection %q: values equal but Go type/zone differs: %s", what, name, diff), feats)
 			case name == target:
-				e.fail(targetProps, "state-divergence", fmt.Sprintf("after %s: collection %q differs from the model: %s", what, name, diff), feats)
+				e.fail(append(append([]string{}, targetProps...), "C11"), "state-divergence", fmt.Sprintf("after %s: collection %q differs from the model: %s", what, name, diff), feats)
 			default:
 				props := []string{"C13", "C12"}
 				if e.cur != nil && (e.cur.K == "DropCollection" || e.cur.K == "DropIndex") {
@@ -687,7 +687,7 @@ func (e *Exec) checkFindAll(q *model.Query, docs []*document.Document) queryResu
 			if onlyTyping(md, got) {
 				e.fail([]string{"C11"}, "C11/type-or-zone", "FindAll: "+describeDocDiff(id, md, got), feats)
 			} else {
-				e.fail([]string{"C01"}, "C01/stale-value", "FindAll: "+describeDocDiff(id, md, got), feats)
+				e.fail([]string{"C01", "C11"}, "C01/stale-value", "FindAll: "+describeDocDiff(id, md, got), feats)
 			}
 			return res
 		}
@@ -1266,7 +1266,7 @@ func (e *Exec) afterWrite(target string, targetProps []string, what string) {
 			if typeOnly {
 				e.fail([]string{"C11"}, "C11/type-or-zone", fmt.Sprintf("after %s: %s", what, diff), e.collFeatures(target))
 			} else {
-				e.fail(targetProps, "state-divergence", fmt.Sprintf("after %s: collection %q differs from the model: %s", what, target, diff), e.collFeatures(target))
+				e.fail(append(append([]string{}, targetProps...), "C11"), "state-divergence", fmt.Sprintf("after %s: collection %q differs from the model: %s", what, target, diff), e.collFeatures(target))
 			}
 		}
 	}
@@ -1361,7 +1361,7 @@ func (e *Exec) checkFindById(coll, id string, doc *document.Document) {
 			if onlyTyping(md, got) {
 				e.fail([]string{"C11"}, "C11/type-or-zone", "FindById: "+describeDocDiff(id, md, got), nil)
 			} else {
-				e.fail([]string{"C01", "C09"}, "C01/stale-value", "FindById: "+describeDocDiff(id, md, got), nil)
+				e.fail([]string{"C01", "C09", "C11"}, "C01/stale-value", "FindById: "+describeDocDiff(id, md, got), nil)
 			}
 		}
 	}
